@@ -4,7 +4,8 @@ Each spec below is derived from the property statement, written over named
 atoms; the code's paths are compared with it by rxv.table.check_table.
 """
 from ..engine import rule, ok, bad, missing
-from ..table import check_table, render
+import re
+from ..table import check_table, render, summarize
 from ..sym import show
 
 OC = "operation::OperationControl"
@@ -133,45 +134,85 @@ ATOM_ABBR = (
 @rule("LITERAL-ATOM", ["C13", "C11", "C01"], floor=3)
 def literal_atom(ctx):
     """Atom: empty if the input is shorter than position+len; otherwise the chars are compared pairwise
-    (equal_case_blind iff flag i, == otherwise), a mismatch gives empty, exhaustion gives once(position+len)."""
-    atoms = {
-        "short": "lt(len(a2.search), add(a3, a1.len))",
-        "i": CI,
-        "more": "variant(NEXT)",
-        "eq_exact": "eq(IN, AT)",
-        "eq_blind": "ReMatcher::equal_case_blind(a2, IN, AT)",
-    }
-
-    def spec(v):
-        if v["short"]:
-            return "empty()"
-        if v["more"] == "None" or v["more"] is False:
-            return "once(add(a3, a1.len))"
-        same = v["eq_blind"] if v["i"] else v["eq_exact"]
-        return "<loop>" if same else "empty()"
-
+    (equal_case_blind iff flag i, == otherwise), a mismatch gives empty, exhaustion gives once(position+len).  The
+    comparison loops are read in turn-indexed form (rxv/lockstep.py): turn k compares search[position+k] with atom[k],
+    however the two sequences are walked; without flag i the whole window may also be compared with the atom at once."""
+    from ..engine import rec as _rec, emit as _emit
+    from ..lockstep import Lockstep
+    from ..dom import guard_strings
+    from ..table import strip_ver
     b = ctx.body(ATOM)
     if b is None:
         return [missing(ATOM)]
-    w = ctx.walk(b)
-    paths = w.paths
-    # the 'more' atom is a variant test: translate to bool (Some=True)
-    def conv(p):
-        g = []
-        for a, o in p.guards:
-            if isinstance(o, tuple) and o[0] == "variant":
-                g.append((a, o[1] == "Some"))
+    d = {}
+    SHORT = ("lt(len(a2.search), add(a3, a1.len))", "lt(len(a2.search), add(a1.len, a3))")
+    SK, AK = "a2.search[add(a3, k)]", "a1.atom[k]"
+    ONCE = ("once(add(a3, a1.len))", "once(add(a1.len, a3))")
+    WIN = ("a2.search[Range::Range{start: a3, end: add(a3, a1.len)}]", "a2.search[Range::Range{start: a3, end: add(a1.len, a3)}]")
+    covered = set()
+    # entry: the length test, and a window compared as a whole
+    for p in ctx.walk(b, max_visits=1).paths:
+        gs = [strip_ver(g) for g in summarize(p)[0]]
+        r = strip_ver(summarize(p)[1])
+        loc = b.loc(p.blocks[-1])
+        if not gs or gs[0].lstrip("!") not in SHORT:
+            _rec(d, "length-test-first", False, "Atom::matches_iter must first compare position + len with the input length; first guard %s" % gs[:1], loc)
+            continue
+        if not gs[0].startswith("!"):
+            _rec(d, "too-short-is-empty", r == "empty()" and p.end == "return", "an atom that does not fit into the rest of the input must yield nothing; found %s" % r, loc)
+            continue
+        whole = [g for g in gs if any(g.lstrip("!") in ("eq(%s, a1.atom)" % w, "eq(a1.atom, %s)" % w) for w in WIN)]
+        if whole:
+            flag_off = ("!" + CI) in gs
+            _rec(d, "whole-window|only-without-i", flag_off, "the window is compared with the atom by plain equality on a path where flag i is not known to be off (guards %s)" % gs[:3], loc)
+            if whole[-1].startswith("!"):
+                _rec(d, "whole-window|mismatch-is-empty", r == "empty()", "a window different from the atom must yield nothing; found %s" % r, loc)
             else:
-                g.append((a, o))
-        p.guards = g
-        return p
-
-    paths = [conv(p) for p in paths]
-
-    def outcome(p):
-        return ret(p, ATOM_ABBR)
-
-    return check_table("Atom", b, paths, atoms, spec, outcome, ATOM_ABBR)
+                _rec(d, "whole-window|match-is-once", r in ONCE, "a window equal to the atom must yield position + len; found %s" % r, loc)
+            covered.add(False)
+    se = ctx.senv(b)
+    for h in sorted(b.natural_loops()):
+        hg = {strip_ver(g) for g in guard_strings(b, h, se)}
+        side = True if CI in hg else False if ("!" + CI) in hg else None
+        for p in Lockstep(ctx, b, h).paths(ctx):
+            gs, r = summarize(p)
+            gs = [strip_ver(g) for g in gs]
+            r = strip_ver(r)
+            loc = b.loc(p.blocks[-1])
+            drv = [g for g in gs if g.startswith("variant(next(<")]
+            m = re.match(r"^variant\(next\(<(.*)>\)\)=(Some|None)$", drv[0]) if drv else None
+            if not m:
+                _rec(d, "loop|driver", False, "a loop of Atom::matches_iter is not driven by the characters of the atom (guards %s)" % gs[:2], loc)
+                continue
+            seq = m.group(1)
+            okseq = seq == "0..len(a1.atom)" or seq in ("min(a2.search[a3..add(a3, a1.len)]; 0..len(a1.atom))", "min(0..len(a1.atom); a2.search[a3..add(a3, a1.len)])", "0..a1.len")
+            _rec(d, "loop|runs-over-the-atom", okseq, "the comparison must run over every character of the atom from the first; it runs over %s" % seq, loc)
+            if side is None:
+                _rec(d, "loop|flag-side", False, "a comparison loop that is not on one side of the flag-i test", loc)
+                continue
+            covered.add(side)
+            tag = "i" if side else "exact"
+            if m.group(2) == "None":
+                _rec(d, "all-equal-is-once|" + tag, r in ONCE and p.end == "return", "when every character compared equal the atom yields position + len; found %s" % r, loc)
+                continue
+            want = ("ReMatcher::equal_case_blind(a2, %s, %s)" % (SK, AK), "ReMatcher::equal_case_blind(a2, %s, %s)" % (AK, SK)) if side else ("eq(%s, %s)" % (SK, AK), "eq(%s, %s)" % (AK, SK))
+            cm = [g for g in gs if g.lstrip("!").startswith(("eq(", "ReMatcher::equal_case_blind("))]
+            if not cm:
+                _rec(d, "compares-pairwise|" + tag, False, "a turn of the loop compares nothing (guards %s)" % gs, loc)
+                continue
+            g = cm[-1]
+            _rec(d, "compares-pairwise|" + tag, g.lstrip("!") in want and len(cm) == 1, "turn k must compare search[position+k] with atom[k] %s; found %s" % ("with equal_case_blind (flag i)" if side else "for identity (no flag i)", cm), loc)
+            if g.startswith("!"):
+                _rec(d, "mismatch-is-empty|" + tag, r == "empty()" and p.end == "return", "a mismatch must yield nothing; found %s (%s)" % (r, p.end), loc)
+            else:
+                _rec(d, "match-continues|" + tag, p.end.startswith("loop"), "after an equal pair the comparison must go on", loc)
+    for side, tag in ((True, "i"), (False, "exact")):
+        if side not in covered:
+            d["side-missing|" + tag] = [False, "Atom::matches_iter has no comparison for the %s case" % ("flag-i" if side else "case-sensitive"), b.loc()]
+    for k in ("too-short-is-empty",):
+        if k not in d:
+            d[k] = [False, "Atom::matches_iter lost its %s clause" % k, b.loc()]
+    return _emit(d)
 
 
 BR_ABBR = (
